@@ -2,6 +2,7 @@
 //!
 //!   c07 list                   one line per registered built-in: module TAB name TAB kind TAB arity
 //!   c07 pool                   one line per pool value: index TAB scheme expression
+//!   c07 engines [n]            create, use and drop n (300) engines in this one process: at which count does it fail?
 //!   c07 globals                the global names of a fresh engine
 //!   c07 probe                  the probe program and the result every probe run must give
 //!   c07 texts <out>            stdin = jobs, records are appended to the file <out> (stdout/stderr stay free for
@@ -714,6 +715,45 @@ fn main() {
             for (i, p) in POOL.iter().enumerate() {
                 println!("{}\t{}", i, p);
             }
+            return;
+        }
+        "engines" => {
+            // directed probe: an embedder that makes one engine per request.  Engines are created, used for one
+            // small procedure and dropped, n times in this one process; records on stdout:
+            //   E <i> maps=<lines of /proc/self/maps>      every 10th engine
+            //   P <i> <loc | via | msg>                    the first panic (creation or evaluation), then the loop stops
+            //   END <engines that worked> maps=<..>
+            let n: usize = args.get(2).and_then(|s| s.parse().ok()).unwrap_or(300);
+            install_hook();
+            let maps = || std::fs::read_to_string("/proc/self/maps").map(|m| m.lines().count()).unwrap_or(0);
+            println!("E 0 maps={}", maps());
+            let mut done = 0usize;
+            for i in 1..=n {
+                let r = catch_unwind(AssertUnwindSafe(|| {
+                    let mut e = Engine::new();
+                    let out = eval(&mut e, format!("(define (f{} x) (+ x 1))\n(f{} 1)", i, i));
+                    drop(e);
+                    out
+                }));
+                let bad = match r {
+                    Ok(Out::Ok(_)) => None,
+                    Ok(Out::Err(x)) => Some(format!("error | | {}", x)),
+                    Ok(Out::Panic(x)) => Some(x),
+                    Err(_) => {
+                        let ps = take_panics();
+                        Some(ps.last().map(|p| format!("{} | {} | {}", p.loc, p.via, p.msg)).unwrap_or_else(|| "? | | ?".into()))
+                    }
+                };
+                if let Some(b) = bad {
+                    println!("P {} {}", i, one_line(&b));
+                    break;
+                }
+                done = i;
+                if i % 10 == 0 || i == 1 {
+                    println!("E {} maps={}", i, maps());
+                }
+            }
+            println!("END {} maps={}", done, maps());
             return;
         }
         "globals" => {
